@@ -24,7 +24,7 @@ RULE = ('derivation histories on an n x c recording with entry (r, j) = ((r*c + 
         'the end; exhaustive on int16 and float64 in quick, on every dtype in thorough, sampled on the other '
         'dtypes / backends (flat multi-file, in-memory array, .npy, mtscomp .cbin) in quick; depth-3 fans sampled '
         'in thorough; (ii) seeded random programs of depth 1-4 with random row index, column selector, dtype, '
-        'backend, layout; (iii) derivation trees of <= 7 readers (parents, siblings, grandchildren) where every '
+        'backend, layout; (iia) sweeps -- 8 (quick) / 48 (thorough) programs each followed by EVERY row index of the regime on 4 / 5 rows (all integers, all unit-step slices selecting >= 1 row, all non-empty increasing lists, as list or ndarray); (iii) derivation trees of <= 7 readers (parents, siblings, grandchildren) where every '
         'existing reader is re-read after every derivation, plus hand-written aliasing corner cases. Programs '
         'whose eager NumPy evaluation raises are dropped from the history (counted); reads on which NumPy itself '
         'is not row-count independent (pure-NumPy evaluation on the block != on the whole array, e.g. SIMD vs '
@@ -314,6 +314,58 @@ def rand_tree(rng, maxr=7):
     return mk('tree', sizes, c, cmds, **cfg)
 
 
+
+def all_items(n):
+    """every row index of the regime on n rows (C01's reading)"""
+    import itertools
+    out = [['int', i] for i in range(-n, n)]
+    bounds = [None] + list(range(-n, n + 1))
+    for a in bounds:
+        for b in bounds:
+            if _np_slice_len(n, a, b) >= 1:
+                out.append(['slice', a, b, None])
+    out.append(['slice', None, None, 1])
+    for k in range(1, n + 1):
+        for comb in itertools.combinations(range(n), k):
+            out.append(['list', list(comb)])
+    return out
+
+
+SWEEP_PROGS = [
+    [['add', ['i', 2]]],
+    [['rtruediv', ['i', 7]], ['cols', ['slice', None, None, -1]]],
+    [['cols', ['list', [2, 0]]], ['rsub', ['f', (1.5).hex()]]],
+    [['mul', ['i', 3]], ['floordiv', ['i', 2]], ['neg']],
+    [['pow', ['i', 2]], ['rfloordiv', ['i', -3]]],
+    [['truediv', ['f', (0.5).hex()]], ['cols', ['slice', 1, 3, None]], ['rpow', ['i', 2]]],
+    [['rmul', ['f', (-2.0).hex()]], ['pos'], ['sub', ['i', 1]]],
+    [['radd', ['i', 1]], ['cols', ['list', [1]]], ['cols', ['list', [0, 0]]]],
+]
+
+
+def sweeps(rng, n, count):
+    """a few programs followed by EVERY row index of the regime (every fourth one with a column selector)"""
+    out = []
+    ops = level_ops(3)
+    cfgs = [((n,), 'array', 'int16'), ((1, n - 1), 'flat', 'float64'), ((n - 2, 1, 1), 'flat', 'int16'), ((n,), 'npy', 'float32'),
+            ((2, n - 2), 'flat', 'int32'), ((n,), 'cbin', 'int16'), ((n,), 'array', 'uint8'), ((n,), 'array', 'float64')]
+    progs = list(SWEEP_PROGS)
+    while len(progs) < count:
+        progs.append([rng.choice(ops) for _ in range(rng.choice([1, 2, 3]))])
+    for k, prog in enumerate(progs[:count]):
+        sizes, be, dt = cfgs[k % len(cfgs)]
+        cmds = [['d', j, o] for j, o in enumerate(prog)]
+        its = all_items(n)
+        if be == 'cbin':
+            its = [it for it in its if it[0] != 'list']
+        cs = colsels(3)
+        for j, it in enumerate(its):
+            cmds.append(['r', len(prog), it, cs[(j // 4) % 3] if j % 4 == 0 else None])
+        out.append(mk('sweep', list(sizes), 3, cmds, backend=be, dtype=dt, off=0 if dt.startswith('u') else -2,
+                      **{'as': 'array' if k % 2 else 'list'}))
+    return out
+
+
 S = lambda *a: ['slice'] + list(a)  # noqa
 ADD2, MUL3, NEG, RSUB1 = ['add', ['i', 2]], ['mul', ['i', 3]], ['neg'], ['rsub', ['i', 1]]
 HALF = ['truediv', ['f', (0.5).hex()]]
@@ -387,6 +439,7 @@ def generate(tier, rng):
             dt, be, sizes = rng.choice([('int16', 'array', (5,)), ('float64', 'array', (5,)), ('float32', 'flat', (2, 3)),
                                         ('int32', 'flat', (4, 1))])
             cases += fans(dt, j, backend=be, sizes=sizes, prefixes=[[rng.choice(ops), rng.choice(ops)]])
+    cases += sweeps(rng, 4, 8) if quick else sweeps(rng, 5, 48)
     # (ii) random programs, (iii) random trees
     cases += [rand_prog(rng) for _ in range(500 if quick else 6000)]
     cases += [rand_tree(rng) for _ in range(250 if quick else 3000)]
